@@ -49,6 +49,8 @@ type c10Case struct {
 	SelfInList  bool       `json:"self_in_list"`
 	DSE         string     `json:"dse_version,omitempty"`
 	BackendDC   string     `json:"backend_dc"`
+	HostDCs     []string   `json:"backend_host_dcs,omitempty"` // data center of each backend host (multi-DC backend)
+	Contact     int        `json:"contact_point,omitempty"`
 	Release     string     `json:"release_version"`
 	CQLVersion  string     `json:"cql_version"`
 	Partitioner string     `json:"partitioner"`
@@ -170,11 +172,22 @@ func c10QueryText(q c10Query) string {
 
 func c10Check(c c10Case) *evid.Fail {
 	v := primitive.ProtocolVersion(c.Version)
-	cl, err := fakecass.New(1)
+	nh := len(c.HostDCs)
+	if nh == 0 {
+		nh = 1
+	}
+	cl, err := fakecass.New(nh)
 	if err != nil {
 		return evid.Failf("harness-env", "%v", err)
 	}
 	defer cl.Close()
+	backendLocalDC := c.BackendDC
+	for i, dc := range c.HostDCs {
+		cl.Host(i).DC = dc
+		if i == c.Contact {
+			backendLocalDC = dc // "local" is the data center of the contact point
+		}
+	}
 	cl.MaxVersion = primitive.ProtocolVersionDse2
 	cl.DSEVersion, cl.DC, cl.ReleaseVer, cl.CQLVersion, cl.Partitioner = c.DSE, c.BackendDC, c.Release, c.CQLVersion, c.Partitioner
 	dse := c.DSE != ""
@@ -185,10 +198,10 @@ func c10Check(c c10Case) *evid.Fail {
 	}
 	var rings [][]c10Ring
 	for self := 0; self < selves; self++ {
-		o := envOpts{Cluster: cl, Version: primitive.ProtocolVersion4, MaxVersion: primitive.ProtocolVersionDse2}
+		o := envOpts{Cluster: cl, Version: primitive.ProtocolVersion4, MaxVersion: primitive.ProtocolVersionDse2, Contact: c.Contact}
 		// model of what this proxy must present
 		var want []c10Ring // index 0 = local, rest = peers in any order
-		localDC := c.BackendDC
+		localDC := backendLocalDC
 		if len(c.Nodes) > 0 {
 			me := c.Nodes[self]
 			o.RPCAddr, o.DC, o.Tokens = me.SelfAs, me.DC, me.Tokens
@@ -632,6 +645,13 @@ func c10Gen(rt *rapid.T) c10Case {
 	if rapid.IntRange(0, 2).Draw(rt, "dse") == 0 {
 		c.DSE = rapid.SampledFrom([]string{"6.8.21", "5.1.30"}).Draw(rt, "dsev")
 	}
+	if rapid.IntRange(0, 2).Draw(rt, "multidc") == 0 {
+		nh := rapid.IntRange(2, 3).Draw(rt, "backendhosts")
+		for i := 0; i < nh; i++ {
+			c.HostDCs = append(c.HostDCs, rapid.SampledFrom([]string{"dc-east", "dc-west", "dc1"}).Draw(rt, "hostdc"))
+		}
+		c.Contact = rapid.IntRange(0, nh-1).Draw(rt, "contact")
+	}
 	n := rapid.SampledFrom([]int{0, 1, 2, 2, 3, 3, 4, 5, 8, 16}).Draw(rt, "nnodes")
 	used := map[string]bool{}
 	dcMode := rapid.IntRange(0, 2).Draw(rt, "dcmode") // 0 none explicit, 1 all explicit, 2 mixed
@@ -669,6 +689,9 @@ func TestC10(t *testing.T) {
 		labels := []string{fmt.Sprintf("nodes:%d", len(c.Nodes)), fmt.Sprintf("self-in-list:%v", c.SelfInList), fmt.Sprintf("explicit-tokens:%v", c.explicitTokens()), map[bool]string{true: "backend:dse", false: "backend:oss"}[c.DSE != ""]}
 		nonStar := false
 		v6 := false
+		if len(c.HostDCs) > 0 {
+			labels = append(labels, "backend:multi-dc")
+		}
 		for _, n := range c.Nodes {
 			if strings.Contains(n.Addr, ":") {
 				v6 = true
